@@ -23,3 +23,18 @@ Theorem C02_starting_iff : forall cs n,
   In n (starting_nodes (build cs)) <-> (exists t, declared cs n t) /\ ~ (exists f, declared cs f n).
 Proof. exact starting_iff. Qed.
 Print Assumptions C02_starting_iff.
+
+(* ---- engine level: for every configuration, every history with any faults (quantification as in C16.v) ---- *)
+From WF Require Import model.EngineBase model.Engine model.Monitors proofs.EngineTokens proofs.EngineProps.
+
+(* every change of a run's persisted status follows a transition declared by a builder call *)
+Theorem C02_history_declared : forall c ops, hist_ok ops -> forall p r a, In (TStore (Some p) r a) (trace_of c ops) ->
+  r_status r <> r_status p -> declared (ec_calls c) (r_status p) (r_status r).
+Proof. exact p_declared_transition. Qed.
+Print Assumptions C02_history_declared.
+
+(* a run's first status is a status the workflow declares *)
+Theorem C02_start_declared : forall c ops, hist_ok ops -> forall r a, In (TStore None r a) (trace_of c ops) ->
+  (exists f, declared (ec_calls c) f (r_status r)) \/ (exists t, declared (ec_calls c) (r_status r) t).
+Proof. exact p_start_declared. Qed.
+Print Assumptions C02_start_declared.
